@@ -12,6 +12,7 @@ pub mod fixture;
 pub mod kdispatch;
 pub mod kmers;
 pub mod model;
+pub mod producers;
 pub mod rec;
 pub mod run;
 pub mod spec;
